@@ -24,7 +24,7 @@ def build_il(cproc=CPROC):
     for k, u in enumerate(UNITS):
         pre = subprocess.run(CPP + [os.path.join(REPO, u + '.c')], capture_output=True, text=True)
         if pre.returncode: raise SystemExit('cpp failed on %s: %s' % (u, pre.stderr[:300]))
-        c = subprocess.run([cproc], input=pre.stdout, capture_output=True, text=True)
+        c = subprocess.run([cproc] + (['-t', os.environ['SELFHOST_TARGET']] if os.environ.get('SELFHOST_TARGET') else []), input=pre.stdout, capture_output=True, text=True)
         if c.returncode: raise SystemExit('stage 1 rejects its own source %s.c: %s' % (u, c.stderr[:300]))
         text = c.stdout
         # which definitions are exported?  `export` precedes `function` / `data` (possibly on its own line)
